@@ -1,7 +1,888 @@
-//! C05 — not built yet (stub).
+//! C05 — RRset signed data equals the RFC 4034/4035 canonical form.
+//!
+//! Oracle: `refm::tbs_ref::signed_data` (RFC 4035 §5.3.2 over RFC 4034 §6.2 canonical RDATA from
+//! `refm::dnssec_wire`, §6.3 order, duplicates removed) compared octet for octet with hickory's
+//! `TBS::from_input`; plus cross-signer checks in which one side is `ring` used directly over the
+//! reference octets, so a deviation shared by hickory's signer and verifier cannot cancel out.
 
-use crate::core::Check;
+use std::time::Duration;
+
+use hickory_proto::dnssec::crypto::{signing_key_from_der, Ed25519SigningKey};
+use hickory_proto::dnssec::rdata::{SigInput, DNSKEY, RRSIG};
+use hickory_proto::dnssec::{Algorithm, DnssecSigner, PublicKey, PublicKeyBuf, SigningKey, Verifier, TBS};
+use hickory_proto::rr::{DNSClass, Record, RecordSet, RecordType, SerialNumber};
+use proptest::prelude::*;
+use rustls_pki_types::{PrivateKeyDer, PrivatePkcs8KeyDer};
+use serde::{Deserialize, Serialize};
+
+use crate::core::{enumerate, prop, CaseResult, Check, Env, Fail, Rec, Tier};
+use crate::gen::names::{self, MName, Rel};
+use crate::gen::rrsets::{self, LabelsChoice};
+use crate::refm::tbs_ref::{self, RefKey, SigParams, TbsError};
+use crate::refm::dnssec_wire::{MRdata, CLASS_IN};
+
+// ---------------------------------------------------------------------------------------------
+// cases
+
+#[derive(Clone, Debug, Serialize, Deserialize)]
+struct TbsCase {
+    owner: MName,
+    /// TTL carried by every record (RFC 2181 §5.2: one TTL per RRset)
+    ttl: u32,
+    rdatas: Vec<MRdata>,
+    labels: LabelsChoice,
+    /// `labels` is filled in from `labels` above when the case runs
+    sig: SigParams,
+    /// case flips applied to the owner for the `name` argument (records keep `owner`)
+    name_arg_case: u64,
+    /// records of another owner / type handed in alongside (must not be part of the signed data)
+    noise: Vec<(MName, MRdata)>,
+}
+
+fn tbs_case() -> impl Strategy<Value = TbsCase> {
+    (
+        rrsets::owner(),
+        rrsets::rrset_rdatas(),
+        rrsets::labels_choice(),
+        prop_oneof![3 => 0u32..100_000, 1 => any::<u32>()],
+        prop_oneof![3 => Just(0u64), 1 => any::<u64>()],
+        prop_oneof![
+            5 => Just(vec![]),
+            1 => proptest::collection::vec((rrsets::small_name(), rrsets::rrset_rdatas().prop_map(|mut v| v.remove(0))), 1..=2),
+        ],
+    )
+        .prop_flat_map(|(owner, rdatas, labels, ttl, name_arg_case, noise)| {
+            let rtype = rdatas[0].rtype();
+            rrsets::sig_params(owner.clone(), rtype).prop_map(move |sig| TbsCase {
+                owner: owner.clone(),
+                ttl,
+                rdatas: rdatas.clone(),
+                labels,
+                sig,
+                name_arg_case,
+                noise: noise.clone(),
+            })
+        })
+}
+
+fn sig_input(sig: &SigParams) -> SigInput {
+    SigInput {
+        type_covered: RecordType::from(sig.type_covered),
+        algorithm: Algorithm::from_u8(sig.algorithm),
+        num_labels: sig.labels,
+        original_ttl: sig.original_ttl,
+        sig_expiration: SerialNumber::new(sig.expiration),
+        sig_inception: SerialNumber::new(sig.inception),
+        key_tag: sig.key_tag,
+        signer_name: sig.signer.to_name(),
+    }
+}
+
+fn hx(b: &[u8]) -> String {
+    crate::core::hexser::to_hex(b)
+}
+
+/// Explain a difference between hickory's octets and the reference. One signature per root
+/// cause; whatever is not explained by a recognised cause gets a generic signature.
+fn diagnose(c: &TbsCase, sig: &SigParams, got: &[u8]) -> Fail {
+    let canon: Vec<Vec<u8>> = c.rdatas.iter().map(|r| r.canonical()).collect();
+    let dedup = tbs_ref::signed_data(&c.owner.labels, CLASS_IN, sig, canon.clone(), true).expect("labels in range");
+    let keep = tbs_ref::signed_data(&c.owner.labels, CLASS_IN, sig, canon, false).expect("labels in range");
+    let head = format!(
+        "owner {} type {} labels {} rdatas [{}]",
+        c.owner.show(),
+        sig.type_covered,
+        sig.labels,
+        c.rdatas.iter().map(|r| r.show()).collect::<Vec<_>>().join(" | ")
+    );
+    if !got.starts_with(&dedup.prefix) {
+        return Fail::new(
+            "tbs-rrsig-rdata-differs",
+            format!("{head}: RRSIG_RDATA part: got {} expected {}", hx(&got[..got.len().min(dedup.prefix.len())]), hx(&dedup.prefix)),
+        );
+    }
+    // split the remainder into RR images: every image starts with the same name image
+    let name_len = crate::refm::canon::wire_len(&tbs_ref::signed_owner(&c.owner.labels, sig.labels).expect("labels in range"));
+    let mut rest = &got[dedup.prefix.len()..];
+    let mut got_rrs: Vec<Vec<u8>> = Vec::new();
+    while !rest.is_empty() {
+        if rest.len() < name_len + 10 {
+            return Fail::new("tbs-malformed", format!("{head}: trailing {} octets do not form an RR image", rest.len()));
+        }
+        let rdlen = u16::from_be_bytes([rest[name_len + 8], rest[name_len + 9]]) as usize;
+        let total = name_len + 10 + rdlen;
+        if rest.len() < total {
+            return Fail::new("tbs-malformed", format!("{head}: RR image with RDLENGTH {rdlen} overruns the buffer"));
+        }
+        got_rrs.push(rest[..total].to_vec());
+        rest = &rest[total..];
+    }
+    let sorted = |v: &[Vec<u8>]| {
+        let mut s = v.to_vec();
+        s.sort();
+        s
+    };
+    let has_dups = keep.rrs.len() != dedup.rrs.len();
+    let case_matters = c.rdatas.iter().any(|r| r.case_sensitive_to_canon());
+    let got_sorted = sorted(&got_rrs);
+    if has_dups && got_rrs == keep.rrs {
+        return Fail::new(
+            "tbs-duplicate-rr-kept",
+            format!(
+                "{head}: {} RR images emitted, RFC 4034 §6.3 / the property require the {} distinct ones",
+                got_rrs.len(),
+                dedup.rrs.len()
+            ),
+        );
+    }
+    if got_sorted == sorted(&dedup.rrs) {
+        // same RR images, other order
+        return if case_matters {
+            Fail::new(
+                "tbs-rr-order-not-canonical",
+                format!(
+                    "{head}: RR images are the canonical ones but ordered {:?} instead of by canonical RDATA (RFC 4034 §6.3); \
+                     RDATA names carry upper-case letters, i.e. the sort key is not the canonical form",
+                    got_rrs.iter().map(|r| dedup.rrs.iter().position(|x| x == r).unwrap()).collect::<Vec<_>>()
+                ),
+            )
+        } else {
+            Fail::new("tbs-rr-order-wrong", format!("{head}: canonical RR images in non-canonical order although no case folding is involved"))
+        };
+    }
+    if has_dups && got_sorted == sorted(&keep.rrs) {
+        return if case_matters {
+            Fail::new(
+                "tbs-duplicate-rr-kept",
+                format!("{head}: duplicates kept ({} images for {} distinct RRs) and, besides, ordered by a non-canonical key", got_rrs.len(), dedup.rrs.len()),
+            )
+        } else {
+            Fail::new("tbs-rr-order-wrong", format!("{head}: duplicates kept and order wrong although no case folding is involved"))
+        };
+    }
+    // types of RFC 4034 §6.2 item 3 for which hickory has no model: plain RDATA instead of folded?
+    if matches!(c.rdatas[0], MRdata::NameOnly { .. } | MRdata::PrefName { .. } | MRdata::TwoNames { .. }) && case_matters {
+        let raw: Vec<Vec<u8>> = c.rdatas.iter().map(|r| r.raw()).collect();
+        let alt = tbs_ref::signed_data(&c.owner.labels, CLASS_IN, sig, raw, false).expect("labels in range");
+        if got_sorted == sorted(&alt.rrs) {
+            return Fail::new(
+                "tbs-rfc4034-listed-type-name-not-lowercased",
+                format!(
+                    "{head}: RDATA of type {} emitted with its embedded name(s) in original case; RFC 4034 §6.2 item 3 lists this type for down-casing",
+                    sig.type_covered
+                ),
+            );
+        }
+    }
+    let first_bad = got_rrs.iter().find(|r| !keep.rrs.contains(r));
+    Fail::new(
+        "tbs-rr-image-differs",
+        format!(
+            "{head}: got {} RR images, expected {}; first unexpected image {} ; expected images {:?}",
+            got_rrs.len(),
+            dedup.rrs.len(),
+            first_bad.map(|r| hx(r)).unwrap_or_default(),
+            dedup.rrs.iter().map(|r| hx(r)).collect::<Vec<_>>()
+        ),
+    )
+}
+
+struct Prepared {
+    sig: SigParams,
+    name_arg: hickory_proto::rr::Name,
+    records: Vec<Record>,
+    noise: Vec<Record>,
+}
+
+fn prepare(c: &TbsCase, rec: &mut Rec) -> Option<Prepared> {
+    let mut sig = c.sig.clone();
+    sig.labels = rrsets::resolve_labels(&c.owner, c.labels);
+    let mut records = Vec::new();
+    for rd in &c.rdatas {
+        match rrsets::to_hickory_record(&c.owner, CLASS_IN, c.ttl, rd) {
+            Ok(r) => records.push(r),
+            Err(e) => {
+                rec.discard(format!("hickory-decoder-rejects-{}", rd.kind()));
+                rec.note(e);
+                return None;
+            }
+        }
+    }
+    let mut noise = Vec::new();
+    for (o, rd) in &c.noise {
+        // noise must really be outside the RRset
+        if rd.rtype() == sig.type_covered && crate::refm::canon::name_eq(&o.labels, &c.owner.labels) {
+            continue;
+        }
+        if let Ok(r) = rrsets::to_hickory_record(o, CLASS_IN, c.ttl, rd) {
+            noise.push(r);
+        }
+    }
+    let name_arg = MName::fq(names::apply_rel(&c.owner.labels, &Rel::CaseFlip(c.name_arg_case))).to_name();
+    Some(Prepared {
+        sig,
+        name_arg,
+        records,
+        noise,
+    })
+}
+
+struct Shape {
+    distinct: usize,
+    has_dups: bool,
+    order_differs: bool,
+    case_matters: bool,
+    reduced: bool,
+}
+
+fn shape(c: &TbsCase, sig: &SigParams) -> Shape {
+    let canon: Vec<Vec<u8>> = c.rdatas.iter().map(|r| r.canonical()).collect();
+    let sorted = tbs_ref::canonical_order(canon.clone(), false);
+    let distinct = tbs_ref::canonical_order(canon.clone(), true).len();
+    Shape {
+        distinct,
+        has_dups: distinct != canon.len(),
+        order_differs: sorted != canon,
+        case_matters: c.rdatas.iter().any(|r| r.case_sensitive_to_canon()),
+        reduced: (sig.labels as usize) < tbs_ref::label_count(&c.owner.labels),
+    }
+}
+
+fn classify(c: &TbsCase, sig: &SigParams, sh: &Shape, rec: &mut Rec) {
+    rec.class(format!("type:{}", c.rdatas[0].kind()));
+    rec.class(format!("members:{}", c.rdatas.len().min(6)));
+    rec.class(if !sh.has_dups {
+        "dups:none"
+    } else if c.rdatas.iter().enumerate().any(|(i, r)| c.rdatas[..i].contains(r)) {
+        "dups:exact"
+    } else {
+        "dups:case-variant"
+    });
+    rec.class(if sh.order_differs { "input-order:not-canonical" } else { "input-order:canonical" });
+    rec.class(if sh.case_matters { "rdata-names:upper-case-present" } else { "rdata-names:no-folding-needed" });
+    rec.class(match c.labels {
+        LabelsChoice::Exact => "labels:exact",
+        LabelsChoice::Fewer(_) if sh.reduced => "labels:fewer(wildcard-reduction)",
+        LabelsChoice::Fewer(_) => "labels:exact",
+        LabelsChoice::Greater(_) => "labels:above-owner",
+    });
+    rec.class(if c.owner.labels.is_empty() {
+        "owner:root"
+    } else if c.owner.labels[0] == b"*" {
+        "owner:wildcard"
+    } else if c.owner.labels.iter().any(|l| l.iter().any(|b| b.is_ascii_uppercase())) {
+        "owner:upper-case-present"
+    } else {
+        "owner:other"
+    });
+    if c.ttl != sig.original_ttl {
+        rec.class("ttl!=origttl");
+    }
+    if sig.inception > sig.expiration {
+        rec.class("window:numerically-wrapped");
+    }
+    // NT rule of DESIGN §7 C05
+    if sh.distinct >= 2 && (sh.order_differs || sh.has_dups || sh.case_matters || sh.reduced) {
+        rec.nontrivial();
+        if rec.wants_note() {
+            rec.note(format!(
+                "{} ttl {} [{}] ; RRSIG type {} alg {} labels {} origttl {} exp {} inc {} tag {} signer {}",
+                c.owner.show(),
+                c.ttl,
+                c.rdatas.iter().map(|r| r.show()).collect::<Vec<_>>().join(" | "),
+                sig.type_covered,
+                sig.algorithm,
+                sig.labels,
+                sig.original_ttl,
+                sig.expiration,
+                sig.inception,
+                sig.key_tag,
+                sig.signer.show()
+            ));
+        }
+    }
+}
+
+fn hickory_tbs(p: &Prepared) -> Result<Vec<u8>, String> {
+    let input = sig_input(&p.sig);
+    TBS::from_input(&p.name_arg, DNSClass::IN, &input, p.records.iter().chain(p.noise.iter()))
+        .map(|t| t.as_ref().to_vec())
+        .map_err(|e| e.to_string())
+}
+
+fn tbs_body(c: &TbsCase, rec: &mut Rec) -> CaseResult {
+    let Some(p) = prepare(c, rec) else {
+        return Ok(());
+    };
+    let sh = shape(c, &p.sig);
+    classify(c, &p.sig, &sh, rec);
+    let got = hickory_tbs(&p);
+    let canon: Vec<Vec<u8>> = c.rdatas.iter().map(|r| r.canonical()).collect();
+    match tbs_ref::signed_data(&c.owner.labels, CLASS_IN, &p.sig, canon, true) {
+        Err(TbsError::LabelsExceedOwner) => {
+            // RFC 4035 §5.3.2: "the RRSIG RR did not pass the necessary validation checks and MUST
+            // NOT be used to authenticate this RRset"
+            vensure!(
+                got.is_err(),
+                "tbs-built-for-labels-above-owner",
+                "owner {} has {} labels, RRSIG Labels {}: signed data was produced",
+                c.owner.show(),
+                c.owner.labels.len(),
+                p.sig.labels
+            );
+            Ok(())
+        }
+        Ok(reference) => {
+            let got = match got {
+                Ok(g) => g,
+                Err(e) => vfail!(
+                    "tbs-error-on-valid-rrset",
+                    "owner {} labels {} [{}]: {e}",
+                    c.owner.show(),
+                    p.sig.labels,
+                    c.rdatas.iter().map(|r| r.show()).collect::<Vec<_>>().join(" | ")
+                ),
+            };
+            if got != reference.bytes() {
+                return Err(diagnose(c, &p.sig, &got));
+            }
+            Ok(())
+        }
+    }
+}
+
+// ---------------------------------------------------------------------------------------------
+// cross-signer cases
+
+#[derive(Clone, Copy, Debug, PartialEq, Eq, Serialize, Deserialize)]
+enum KeySel {
+    /// the repository's fixture key for the algorithm
+    Fixture,
+    /// Ed25519 key derived from this number (only with algorithm 15)
+    Seed(u16),
+}
+
+#[derive(Clone, Debug, Serialize, Deserialize)]
+struct CryptoCase {
+    base: TbsCase,
+    key: KeySel,
+    /// DNSKEY flags of the zone key (256 ZSK / 257 KSK)
+    flags: u16,
+    /// bit of the reference octets flipped for the negative control
+    flip: u32,
+    /// signing time for the hickory-signs direction (unix seconds, may lie just below 2^32)
+    sign_at: u64,
+    /// signature lifetime in seconds for the hickory-signs direction
+    lifetime: u32,
+}
+
+fn crypto_case(tier: Tier) -> impl Strategy<Value = CryptoCase> {
+    let _ = tier;
+    (
+        tbs_case(),
+        prop_oneof![
+            5 => Just(tbs_ref::ALG_ED25519),
+            3 => Just(tbs_ref::ALG_ECDSAP256),
+            2 => Just(tbs_ref::ALG_ECDSAP384),
+            2 => Just(tbs_ref::ALG_RSASHA256),
+            2 => Just(tbs_ref::ALG_RSASHA512),
+        ],
+        any::<u16>(),
+        any::<bool>(),
+        prop::sample::select(&[256u16, 257][..]),
+        any::<u32>(),
+        prop_oneof![
+            4 => 1_500_000_000u64..2_000_000_000,
+            1 => (u32::MAX as u64 - 100_000)..(u32::MAX as u64),
+            1 => 0u64..100_000,
+        ],
+        prop_oneof![3 => 1u32..10_000_000, 1 => 0x7000_0000u32..0x7fff_fff0],
+    )
+        .prop_map(|(mut base, alg, seed, use_seed, flags, flip, sign_at, lifetime)| {
+            base.sig.algorithm = alg;
+            if let LabelsChoice::Greater(_) = base.labels {
+                base.labels = LabelsChoice::Exact;
+            }
+            let key = if alg == tbs_ref::ALG_ED25519 && use_seed { KeySel::Seed(seed) } else { KeySel::Fixture };
+            CryptoCase {
+                base,
+                key,
+                flags,
+                flip,
+                sign_at,
+                lifetime,
+            }
+        })
+}
+
+enum KeyRef {
+    Shared(&'static RefKey),
+    Own(RefKey),
+}
+
+impl std::ops::Deref for KeyRef {
+    type Target = RefKey;
+    fn deref(&self) -> &RefKey {
+        match self {
+            KeyRef::Shared(k) => k,
+            KeyRef::Own(k) => k,
+        }
+    }
+}
+
+fn ref_key(alg: u8, sel: KeySel) -> KeyRef {
+    match sel {
+        KeySel::Fixture => KeyRef::Shared(tbs_ref::fixture_key(alg)),
+        KeySel::Seed(n) => KeyRef::Own(RefKey::ed25519_from_seed(&tbs_ref::seed32(n as u64))),
+    }
+}
+
+fn alg_name(a: u8) -> &'static str {
+    match a {
+        tbs_ref::ALG_ED25519 => "ED25519",
+        tbs_ref::ALG_ECDSAP256 => "ECDSAP256SHA256",
+        tbs_ref::ALG_ECDSAP384 => "ECDSAP384SHA384",
+        tbs_ref::ALG_RSASHA256 => "RSASHA256",
+        tbs_ref::ALG_RSASHA512 => "RSASHA512",
+        tbs_ref::ALG_RSASHA1 => "RSASHA1",
+        _ => "other",
+    }
+}
+
+/// (2) a conforming third-party signer (ring over the reference octets) must be accepted by
+/// hickory's verifier; a signature over other octets must not be.
+fn third_party_signs_body(c: &CryptoCase, rec: &mut Rec) -> CaseResult {
+    let alg = c.base.sig.algorithm;
+    let key = ref_key(alg, c.key);
+    let public = key.dns_public_key();
+    let mut base = c.base.clone();
+    base.sig.key_tag = tbs_ref::key_tag(&tbs_ref::dnskey_rdata(c.flags, 3, alg, &public));
+    let Some(p) = prepare(&base, rec) else {
+        return Ok(());
+    };
+    let sh = shape(&base, &p.sig);
+    classify(&base, &p.sig, &sh, rec);
+    rec.class(format!("alg:{}", alg_name(alg)));
+    let canon: Vec<Vec<u8>> = base.rdatas.iter().map(|r| r.canonical()).collect();
+    let reference = tbs_ref::signed_data(&base.owner.labels, CLASS_IN, &p.sig, canon, true)
+        .expect("labels never above owner here")
+        .bytes();
+    let signature = key.sign(alg, &reference);
+    let dnskey = DNSKEY::with_flags(c.flags, PublicKeyBuf::new(public.clone(), Algorithm::from_u8(alg)));
+    let rrsig = RRSIG::from_sig(sig_input(&p.sig), signature);
+    let verdict = dnskey.verify_rrsig(&p.name_arg, DNSClass::IN, &rrsig, p.records.iter().chain(p.noise.iter()));
+    if let Err(e) = verdict {
+        // tell "other octets were reconstructed" (explained by the byte comparison) from a
+        // rejection of the right octets
+        match hickory_tbs(&p) {
+            Ok(got) if got != reference => return Err(diagnose(&base, &p.sig, &got)),
+            Ok(_) => vfail!(
+                "third-party-signature-rejected",
+                "{} signature by ring over the RFC 4035 §5.3.2 octets rejected although hickory reconstructs the same octets: {e}",
+                alg_name(alg)
+            ),
+            Err(e2) => vfail!("tbs-error-on-valid-rrset", "{e2}"),
+        }
+    }
+    // negative control: signature over octets that differ in one bit
+    let mut other = reference.clone();
+    let bit = c.flip as usize % (other.len() * 8);
+    other[bit / 8] ^= 0x80 >> (bit % 8);
+    let bad = RRSIG::from_sig(sig_input(&p.sig), key.sign(alg, &other));
+    vensure!(
+        dnskey.verify_rrsig(&p.name_arg, DNSClass::IN, &bad, p.records.iter()).is_err(),
+        "verifier-accepts-signature-over-other-octets",
+        "{}: signature over the reference octets with bit {bit} flipped was accepted",
+        alg_name(alg)
+    );
+    Ok(())
+}
+
+fn hickory_signing_key(alg: u8, sel: KeySel) -> Result<Box<dyn SigningKey>, Fail> {
+    match sel {
+        KeySel::Seed(n) => {
+            let kp = ring::signature::Ed25519KeyPair::from_seed_unchecked(&tbs_ref::seed32(n as u64))
+                .map_err(|e| Fail::new("harness", format!("seed key: {e}")))?;
+            Ok(Box::new(Ed25519SigningKey::from_ed25519(kp)))
+        }
+        KeySel::Fixture => {
+            let der = PrivateKeyDer::Pkcs8(PrivatePkcs8KeyDer::from(tbs_ref::fixture_pkcs8(alg).to_vec()));
+            signing_key_from_der(&der, Algorithm::from_u8(alg))
+                .map_err(|e| Fail::new("signing-key-load-failed", format!("fixture key for {}: {e}", alg_name(alg))))
+        }
+    }
+}
+
+/// (3) hickory signs (RecordSet + DnssecSigner + RRSIG::from_rrset); ring must verify the
+/// signature over the reference octets built from the RRSIG's own fields. (4) hickory must
+/// accept its own signature for any record order.
+fn hickory_signs_body(c: &CryptoCase, rec: &mut Rec) -> CaseResult {
+    let alg = c.base.sig.algorithm;
+    let mut base = c.base.clone();
+    // a zone holds each RR once: canonical duplicates are not part of this direction
+    let mut seen: Vec<Vec<u8>> = Vec::new();
+    base.rdatas.retain(|r| {
+        let k = r.canonical();
+        if seen.contains(&k) {
+            false
+        } else {
+            seen.push(k);
+            true
+        }
+    });
+    // the signer derives Labels itself (RFC 4034 §3.1.3)
+    base.labels = LabelsChoice::Exact;
+    base.noise.clear();
+    base.name_arg_case = 0;
+    let Some(p) = prepare(&base, rec) else {
+        return Ok(());
+    };
+    let owner_name = base.owner.to_name();
+    let rtype = RecordType::from(base.rdatas[0].rtype());
+    let mut set = RecordSet::new(owner_name.clone(), rtype, 0);
+    for r in &p.records {
+        set.insert(r.clone(), 0);
+    }
+    if set.records_count() != base.rdatas.len() {
+        rec.discard("recordset-merged-or-refused-records");
+        return Ok(());
+    }
+    let key = ref_key(alg, c.key);
+    let public = key.dns_public_key();
+    let hk_key = hickory_signing_key(alg, c.key)?;
+    let hk_public = hk_key
+        .to_public_key()
+        .map_err(|e| Fail::new("signing-key-public-part-failed", e.to_string()))?;
+    // RFC 8080 §3 / RFC 6605 §4 / RFC 3110 §2 public key formats
+    vensure!(
+        hk_public.public_bytes() == public.as_slice(),
+        "dnskey-public-key-format-differs",
+        "{}: hickory {} reference {}",
+        alg_name(alg),
+        hx(hk_public.public_bytes()),
+        hx(&public)
+    );
+    let dnskey = DNSKEY::with_flags(c.flags, hk_public);
+    let signer = DnssecSigner::new(dnskey.clone(), hk_key, base.sig.signer.to_name(), Duration::from_secs(c.lifetime as u64));
+    let inception = time::OffsetDateTime::from_unix_timestamp(c.sign_at as i64).expect("timestamp in range");
+    let rrsig = match RRSIG::from_rrset(&set, DNSClass::IN, inception, &signer) {
+        Ok(r) => r,
+        Err(e) => vfail!("signer-error-on-valid-rrset", "{} {}: {e}", base.owner.show(), alg_name(alg)),
+    };
+    let i = rrsig.input();
+    let made = SigParams {
+        type_covered: u16::from(i.type_covered),
+        algorithm: u8::from(i.algorithm),
+        labels: i.num_labels,
+        original_ttl: i.original_ttl,
+        expiration: i.sig_expiration.get(),
+        inception: i.sig_inception.get(),
+        key_tag: i.key_tag,
+        signer: MName::from_name(&i.signer_name),
+    };
+    // the fields a conforming signer must produce (RFC 4034 §3.1.1 – §3.1.7)
+    let want_tag = tbs_ref::key_tag(&tbs_ref::dnskey_rdata(c.flags, 3, alg, &public));
+    vensure!(
+        made.type_covered == base.rdatas[0].rtype()
+            && made.algorithm == alg
+            && made.labels as usize == tbs_ref::label_count(&base.owner.labels)
+            && made.original_ttl == base.ttl
+            && made.inception == c.sign_at as u32
+            && made.expiration == (c.sign_at + c.lifetime as u64) as u32
+            && made.key_tag == want_tag
+            && crate::refm::canon::name_eq(&made.signer.labels, &base.sig.signer.labels),
+        "signer-rrsig-field-wrong",
+        "owner {} ttl {} sign_at {} lifetime {}: RRSIG fields {:?}, expected type {} alg {alg} labels {} tag {want_tag}",
+        base.owner.show(),
+        base.ttl,
+        c.sign_at,
+        c.lifetime,
+        made,
+        base.rdatas[0].rtype(),
+        tbs_ref::label_count(&base.owner.labels)
+    );
+    let sh = shape(&base, &made);
+    classify(&base, &made, &sh, rec);
+    rec.class(format!("alg:{}", alg_name(alg)));
+    let canon: Vec<Vec<u8>> = base.rdatas.iter().map(|r| r.canonical()).collect();
+    let reference = tbs_ref::signed_data(&base.owner.labels, CLASS_IN, &made, canon, true)
+        .expect("labels == owner labels")
+        .bytes();
+    if !tbs_ref::verify_with_dns_key(alg, &public, &reference, rrsig.sig()) {
+        let mut p2 = Prepared {
+            sig: made.clone(),
+            name_arg: owner_name.clone(),
+            records: p.records.clone(),
+            noise: vec![],
+        };
+        p2.sig.labels = made.labels;
+        match hickory_tbs(&p2) {
+            Ok(got) if got != reference => return Err(diagnose(&base, &made, &got)),
+            Ok(_) => vfail!(
+                "hickory-signature-not-verifiable-by-third-party",
+                "{}: ring rejects hickory's signature although the octets agree (signature format?) sig {}",
+                alg_name(alg),
+                hx(rrsig.sig())
+            ),
+            Err(e) => vfail!("tbs-error-on-valid-rrset", "{e}"),
+        }
+    }
+    // (4) own verifier, records handed over in reverse order
+    let rev: Vec<&Record> = p.records.iter().rev().collect();
+    if let Err(e) = dnskey.verify_rrsig(&owner_name, DNSClass::IN, &rrsig, rev.into_iter()) {
+        vfail!("hickory-rejects-own-signature", "{} {}: {e}", base.owner.show(), alg_name(alg));
+    }
+    Ok(())
+}
+
+// ---------------------------------------------------------------------------------------------
+// fixed small RRsets: every member order of a few hand-picked sets (exhaustive small scope)
+
+#[derive(Clone, Debug, Serialize, Deserialize)]
+struct PermCase {
+    set: usize,
+    perm: Vec<usize>,
+}
+
+fn fixed_sets() -> Vec<(MName, Vec<MRdata>)> {
+    let n = |s: &str| MName::fq(s.split('.').filter(|l| !l.is_empty()).map(|l| l.as_bytes().to_vec()).collect());
+    vec![
+        (n("example.com"), vec![MRdata::A(vec![10, 0, 0, 2]), MRdata::A(vec![10, 0, 0, 1]), MRdata::A(vec![9, 255, 0, 0])]),
+        (n("Example.COM"), vec![MRdata::Ns(n("ns2.example.com")), MRdata::Ns(n("ns1.example.com")), MRdata::Ns(n("a.ns.example.com"))]),
+        (
+            n("example.com"),
+            vec![
+                MRdata::Txt(vec![b"b".to_vec()]),
+                MRdata::Txt(vec![b"a".to_vec(), b"".to_vec()]),
+                MRdata::Txt(vec![b"a".to_vec()]),
+                MRdata::Txt(vec![b"".to_vec()]),
+            ],
+        ),
+        (
+            n("*.example.com"),
+            vec![
+                MRdata::Mx { pref: 10, exchange: n("mx2.example.com") },
+                MRdata::Mx { pref: 10, exchange: n("mx1.example.com") },
+                MRdata::Mx { pref: 5, exchange: n("z.example.com") },
+                MRdata::Mx { pref: 256, exchange: n("a.example.com") },
+            ],
+        ),
+        (
+            n("_sip._tcp.example.com"),
+            vec![
+                MRdata::Srv { priority: 0, weight: 5, port: 5060, target: n("sip2.example.com") },
+                MRdata::Srv { priority: 0, weight: 5, port: 5060, target: n("sip1.example.com") },
+                MRdata::Srv { priority: 0, weight: 5, port: 443, target: n("sip1.example.com") },
+            ],
+        ),
+    ]
+}
+
+fn perms(n: usize) -> Vec<Vec<usize>> {
+    fn rec(cur: &mut Vec<usize>, used: &mut Vec<bool>, out: &mut Vec<Vec<usize>>) {
+        if cur.len() == used.len() {
+            out.push(cur.clone());
+            return;
+        }
+        for i in 0..used.len() {
+            if !used[i] {
+                used[i] = true;
+                cur.push(i);
+                rec(cur, used, out);
+                cur.pop();
+                used[i] = false;
+            }
+        }
+    }
+    let mut out = Vec::new();
+    rec(&mut Vec::new(), &mut vec![false; n], &mut out);
+    out
+}
+
+// ---------------------------------------------------------------------------------------------
+// RSASHA1 (5) and RSASHA1-NSEC3-SHA1 (7): hickory verifies these but cannot sign them, and ring
+// cannot produce SHA-1 signatures either. Fixed vectors: the reference octets of a few fixed
+// RRsets were signed once with the OpenSSL CLI (`openssl dgst -sha1 -sign`, PKCS#1 v1.5, which is
+// deterministic) using the repository's rsa_2048 fixture key; the signatures are kept below.
+// Regenerate: VERIF_C05_DUMP=<dir> vcheck C05 --sub rsasha1_fixed_vectors writes <dir>/v<N>.tbs.
+
+#[derive(Clone, Debug, Serialize, Deserialize)]
+struct Sha1Vector {
+    n: usize,
+}
+
+/// (fixed set, algorithm number, member order reversed, Labels reduced to 1 = wildcard form)
+const SHA1_SHAPES: &[(usize, u8, bool, bool)] = &[
+    (0, 5, false, false),
+    (1, 5, true, false),
+    (2, 5, false, false),
+    (3, 5, true, true),
+    (0, 7, true, false),
+    (1, 7, false, true),
+    (3, 7, false, false),
+    (4, 7, true, false),
+];
+
+const SHA1_SIGS: &[&str] = &[
+    "475514c1581cdaa8ad69f4de8b1f6af841cd54baaeff550c0179b9fb99e3b6c3cbae853695a9a5101ed0bd648dede97725a82907722e67ee941c9e6bead21aa5b35e030b7dc74dca3f4a54348ff391243d6d50fb92c03d3a19dec2e850c88551b5838a9e8f8a25ab35552a8ffefc5124c82a78d5896ee16217b9f050208db575567873625433d0f2aeefc5767ed48f3ebf1ebbe5be2969832c5ccd79dd117df277fd9661afc20e053f9a9b91cd373bbff62356bc19f873debfef4f8f4a0f41e73578105afb3ea28810d50786441b42320ddb2936ae0b3447a86f4c6212f30831b9f14ac782f67aa540fd6f43b98b4b0b054bdc242961719199f671b6fa769ec3",
+    "093a6db1a02dbd841741b959eef142873f50fa50b2f328ff5f199c38880467fba5a4a512d77579461d5199a84559b82fd4b61f0aeef448562f472c032f08597a8f5d35a70703a34a2e96c1b71128b7a3d358ed19014dad93e5a17513237ff3cb2724e4a0489ad4eed7e517a38d189b27493cfdd87acc17a78b97f5aa552e3bb2081563f33ac137b73a06e6368cbb221971b97e9de74ae196516f7059dc453fe502a5e4694c80086c9b9b742571b9ba284fea3de5b0408aef63484dad57d63b4016712bbe7a3660ecd6b3c7e195bd533be196e9fae4843177b9b834bf4c721002d665b5f2091b1bd86c83ce564064a088e669ce63bf7f7b9d7f243302b833baf4",
+    "ab5bf9b18a9a49dc557b331d19e44354f70d7c03976eb2658f630d4b1c07cc6c106abd5e278750c7f28c66479d698b0b09b44dd28859e07917c421d24020e7efef62b2f1b7ca8ea0e459464debfeb7e74784a7ef17b1215383c9ea8e4bbd1e8b37d239c6637b0f82acb1a1ae3947d6ed4c6c0adb93134b5ca852d168b158eb8c740585aecf1a973e9eeb0b00698109e30a0b7bf9baa0cc6517c1780ebffcef440706179fe35be736cd9137efa132baf88f7c5bcc163e9f98754a9ca10b489d7c4f38b33d40f04eba1e8c16dbef58bc03b314ec5dc910ba193199ff86beeee13cb0341917b926bd4e3714f881c8f68f9b063896263b6a9d83e7be0bf6cadb41c5",
+    "2aad0e82766ae4be1e341cc6731487977c33945f3f8670f0fc2f073852900d592ac7cfd1d8a1da68fa456a46d656ee209b483d189070a71db4df8e921eae6f98b65102d0a80b5dbeaf77e60abbc56be55c39d5a2bb58d45f4348dbf4b0d792a2d975ffb54333c8de626970f6233a9a9c724ea14ceaf325dc487b06af39be9076d342e253263542a1a7635bd8a1a0d30def21c1860341b9f44dae8a0ecfa64e841faf5fb4b11a89c90822ebb126c83b7c618389e5962b855c1b37b34e39d8c3194d20b64a5226ed203dfb7ace4763c72f1517fc5fc7eca3b4315cb1cf866d74cf716399cee0bab2a349bb059c68e87d720aa72de068a86544748a5b040eff02a5",
+    "59d303d27f679ddf42df79b4739196fbf2236753229fb6243aefac9d5bf00c1018a93a46af45a1f8b66f6755d79fcf541223ba45fd42b779df7325e3d08aa4e5d7e7abd62ea515b5744710b9614d9a315ff4bec1a23c74b193de71f18e203860539651c1022c69847e25036526037abf7164665f797182556d05d1656b351d5abe3340f0a30f72ed7b5b28cd672b736cd4c0a52e9606202ba57f944214b6589d04bbbb6bd14ed001583304571db8a47ee1fbc52b273efa9e5e6ee47a6ff5cb77f599f9e01a0dfc18d9e79ac7a46557fda7042536cf793a754fa67c503a2f1acce3e8fb1135427eb5abaaa572ebd7aca36c81ec76d6bfdb953cec6b57d3ef29f5",
+    "13136fd756ecd72545dbd2d865e6232a7cc28487a5ad4649ca0a427bd2d8fe2aedd3f4466b0aeb6a5d2f4aa89bd89c14ae1703ca862dd194e4f7c428f077d4444508522405e4c3eb10bfa3dfc9f8952630b7190a286a579c259948d104ad76c5c60b2880546f72bfaeb12c62365b588cc4758628537b79ca58db7a6a1f9f02eefb1c57cdca2d353531a27c194c9ef99e952a500152b9f09d6626e275ca5555c5430feb7342cbf4800de899dc39267be2632679625263a3876afa22654f5d63ec0444a8566f7994706cfd54288642d2b96161f306a42e792a50e137ffc46730c2c0e8016a4efdcb295c502154b2cec6a623b4d60fa041633e35fd0b1154ecd088",
+    "4baacaed7ae87cbd23601acd15203beedb0368ddeb9069f60f0a13b6092859c7b2c999bf2c7321c759f63a3fed853e47ee5539ffde28b79c213bd516bc38e9e702a6db0e327ed2e3447e5c06dbd7fb63f1c7fa41ac4dca8efae63668d11d810df7127296b27fd68e9feb05c62fbc7eefacf2b71f6914b3de0f1ce5c9151f47ac233ffe070a486c03babd8eb93b49c7a2cf6a693093b32d9501b1d12755016154092295bd62ebcfcf23dee5fff7e8883db02c6882559fde2d94978b79a49adefcb8c6112c38d2ef55d6ca190db1d6366265117809c57b78d5b6ba2bf0514b16992080fdd2d7a3e4575e6a4dfe7ea4bcd65459b7e9bf14a106beb75bd1acd3bf0b",
+    "b18a1ca925b35af72e9eb50e43d1b1719e94b6e48b76a9cb084c8a89573f289ac738a99991196b273e0843f3fa72915e71488809c29ee8f64bfdc575c1d5b9bf2aac1b44c8080c13b42fa80c235752c99d73e2ed394ee0bb5e4f65f128c98fe9ee05838eea75ffc96bcea2a1bc1eaa59e83755e0babee16cf22ae78c0644fe701b0bd7f4bb0f8eb86b48ba1c4eab9b040585f8e7168607c56c93c388414b817c85bba37f37735c9fed7d73602dd8bb8dd81937294bcf6e9f7872eedfe05659471d34f3d9912d5e90d01874cf8c29e4cc0d725a48a11101ee3087617fac8bc5d21e2aa1697d438a1348b3f81ffd3d72228a0231a49e736130554f056e72309cde",
+];
+
+fn sha1_vector_body(v: &Sha1Vector, rec: &mut Rec) -> CaseResult {
+    let (set, alg, reversed, reduced) = SHA1_SHAPES[v.n];
+    let (owner, mut rdatas) = fixed_sets().swap_remove(set);
+    if reversed {
+        rdatas.reverse();
+    }
+    let key = tbs_ref::fixture_key(alg);
+    let public = key.dns_public_key();
+    let rtype = rdatas[0].rtype();
+    let case = TbsCase {
+        owner: owner.clone(),
+        ttl: 300,
+        rdatas,
+        labels: if reduced { LabelsChoice::Fewer(1) } else { LabelsChoice::Exact },
+        sig: SigParams {
+            type_covered: rtype,
+            algorithm: alg,
+            labels: 0,
+            original_ttl: 3600,
+            expiration: 1_700_086_400,
+            inception: 1_700_000_000,
+            key_tag: tbs_ref::key_tag(&tbs_ref::dnskey_rdata(256, 3, alg, &public)),
+            signer: MName::fq(owner.labels[owner.labels.len() - 2..].to_vec()),
+        },
+        name_arg_case: 0,
+        noise: vec![],
+    };
+    let Some(p) = prepare(&case, rec) else {
+        return Ok(());
+    };
+    let canon: Vec<Vec<u8>> = case.rdatas.iter().map(|r| r.canonical()).collect();
+    let reference = tbs_ref::signed_data(&case.owner.labels, CLASS_IN, &p.sig, canon, true).expect("labels in range").bytes();
+    if let Ok(dir) = std::env::var("VERIF_C05_DUMP") {
+        std::fs::write(format!("{dir}/v{}.tbs", v.n), &reference).map_err(|e| Fail::new("harness", e.to_string()))?;
+        rec.discard("dump-mode");
+        return Ok(());
+    }
+    let Some(sig_hex) = SHA1_SIGS.get(v.n) else {
+        rec.discard("no-vector-recorded");
+        return Ok(());
+    };
+    let signature = crate::core::hexser::from_hex(sig_hex).map_err(|e| Fail::new("harness", e))?;
+    // the vector itself must be right: ring verifies it over the reference octets
+    vensure!(
+        tbs_ref::verify_with_dns_key(alg, &public, &reference, &signature),
+        "harness-sha1-vector-stale",
+        "vector {} does not verify over the reference octets with ring (regenerate it)",
+        v.n
+    );
+    rec.class(format!("alg:{alg}"));
+    rec.nontrivial();
+    let dnskey = DNSKEY::with_flags(256, PublicKeyBuf::new(public, Algorithm::from_u8(alg)));
+    let rrsig = RRSIG::from_sig(sig_input(&p.sig), signature.clone());
+    if let Err(e) = dnskey.verify_rrsig(&p.name_arg, DNSClass::IN, &rrsig, p.records.iter()) {
+        match hickory_tbs(&p) {
+            Ok(got) if got != reference => return Err(diagnose(&case, &p.sig, &got)),
+            _ => vfail!("third-party-signature-rejected", "RSA/SHA-1 (algorithm {alg}) vector {} rejected: {e}", v.n),
+        }
+    }
+    let mut bad = signature;
+    bad[17] ^= 0x04;
+    let rrsig = RRSIG::from_sig(sig_input(&p.sig), bad);
+    vensure!(
+        dnskey.verify_rrsig(&p.name_arg, DNSClass::IN, &rrsig, p.records.iter()).is_err(),
+        "verifier-accepts-corrupted-signature",
+        "RSA/SHA-1 vector {} accepted with one signature bit flipped",
+        v.n
+    );
+    Ok(())
+}
+
+// ---------------------------------------------------------------------------------------------
 
 pub fn check() -> Option<Check> {
-    None
+    let tbs = prop("tbs_bytes", 40_000, 1_000_000, |_| tbs_case(), tbs_body);
+    let third = prop("third_party_signs", 4_000, 100_000, crypto_case, third_party_signs_body);
+    let own = prop("hickory_signs", 4_000, 100_000, crypto_case, hickory_signs_body);
+    let fixed = enumerate(
+        "fixed_sets_all_orders",
+        |_env: &Env| {
+            let mut cases = Vec::new();
+            for (i, (_, rds)) in fixed_sets().iter().enumerate() {
+                for p in perms(rds.len()) {
+                    cases.push(PermCase { set: i, perm: p });
+                }
+            }
+            (Box::new(cases.into_iter()) as Box<dyn Iterator<Item = PermCase> + Send>, true)
+        },
+        |c: &PermCase, rec: &mut Rec| {
+            let (owner, rds) = fixed_sets().swap_remove(c.set);
+            let rdatas: Vec<MRdata> = c.perm.iter().map(|i| rds[*i].clone()).collect();
+            let rtype = rdatas[0].rtype();
+            let case = TbsCase {
+                owner: owner.clone(),
+                ttl: 300,
+                rdatas,
+                labels: LabelsChoice::Exact,
+                sig: SigParams {
+                    type_covered: rtype,
+                    algorithm: tbs_ref::ALG_ED25519,
+                    labels: 0,
+                    original_ttl: 3600,
+                    expiration: 1_700_086_400,
+                    inception: 1_700_000_000,
+                    key_tag: 12345,
+                    signer: MName::fq(owner.labels[owner.labels.len() - 2..].to_vec()),
+                },
+                name_arg_case: 0,
+                noise: vec![],
+            };
+            tbs_body(&case, rec)?;
+            // and through the verifier with a third-party signature
+            third_party_signs_body(
+                &CryptoCase {
+                    base: case,
+                    key: KeySel::Seed(1),
+                    flags: 256,
+                    flip: 77,
+                    sign_at: 0,
+                    lifetime: 0,
+                },
+                rec,
+            )
+        },
+    );
+    let sha1 = enumerate(
+        "rsasha1_fixed_vectors",
+        |_env: &Env| (Box::new((0..SHA1_SHAPES.len()).map(|n| Sha1Vector { n })) as Box<dyn Iterator<Item = Sha1Vector> + Send>, true),
+        sha1_vector_body,
+    );
+    Some(Check {
+        id: "C05",
+        level: "exploration",
+        rule: "RRsets of one type out of A, AAAA, NS, CNAME, PTR, MX, SOA, TXT, HINFO, SRV, NAPTR, CAA, TLSA, SSHFP, DS, DNSKEY, NSEC, NSEC3PARAM, \
+               RFC 4034 §6.2-listed types hickory has no model for (MD MF MB MG MR DNAME / AFSDB RT KX / MINFO RP) and opaque types; 1..6 members built \
+               from a pool of related mixed-case names and small repeating numbers, 0..2 injected duplicates (exact or case variant), arbitrary member order; \
+               owners plain / wildcard / arbitrary octets / root in mixed case; RRSIG tuples with Labels exact, fewer (wildcard reduction) or above the owner, \
+               OrigTTL != TTL, arbitrary and wrapped inception/expiration, mixed-case signer. hickory gets the records through its wire decoder. \
+               Compared: TBS::from_input octets vs the reference; ring-signed reference octets through DNSKEY::verify_rrsig (plus a one-bit negative control); \
+               RRSIG::from_rrset output verified by ring over the reference octets and by hickory itself; algorithms 15, 13, 14, 8, 10. \
+               Non-trivial = distinct case AND >= 2 distinct RDATAs AND (input order != canonical order OR a duplicate present OR an upper-case letter in a \
+               foldable RDATA name OR wildcard reduction applies)",
+        assumptions: vec![
+            "all members of an RRset carry the same TTL (RFC 2181 §5.2); class IN only",
+            "RSASHA1 / RSASHA1-NSEC3-SHA1 (verify-only in hickory, ring cannot produce SHA-1 signatures) are exercised by 8 fixed vectors signed once with the OpenSSL CLI, not by generated cases",
+            "CNAME, SOA and NSEC RRsets are generated with one member; RDATA of zero octets is not generated (hickory maps it to its RFC 2136 Update0 form)",
+            "the crypto primitives of ring are trusted; independence concerns the signed octets, key and signature formats",
+            "signed data above 65,535 octets is outside the domain (cannot travel in a DNS message)",
+        ],
+        subs: vec![tbs, third, own, fixed, sha1],
+    })
 }
